@@ -4,6 +4,7 @@ package ice
 
 import (
 	"bytes"
+	"math"
 
 	"github.com/RoaringBitmap/roaring"
 	segment "github.com/blugelabs/bluge_segment_api"
@@ -39,10 +40,26 @@ func vpH_C14_pool() {
 	}
 	// a failed build in between (unknown chunk mode) must not matter either
 	failed := vpChoice("failed-build-between", 2) == 1
-	vpPoolReuse(false)
-	fresh := vpBuildBytes(b, modeB)
+	// the reference build runs on a builder fresh from New(): every pool is flushed first
 	vpPoolReuse(true)
-	vpBuildBytes(a, modeA)
+	vpPoolFlush()
+	fresh := vpBuildBytes(b, modeB)
+	if vpChoice("flush-between", 2) == 1 {
+		// history "New(), A, B" instead of "New(), B, A, B"
+		vpPoolFlush()
+	}
+	if vpChoice("other-norm-before", 2) == 1 {
+		// the preceding build may use another norm function: only the norm
+		// function of THIS build may matter
+		other := func(field string, length int) float32 {
+			return math.Float32frombits(vpNormBits(field, length) + 0x00400000)
+		}
+		s, _, err := newWithChunkMode(vpDocs(a), other, modeA)
+		vpMust(err, "newWithChunkMode")
+		vpPersist(s)
+	} else {
+		vpBuildBytes(a, modeA)
+	}
 	if failed {
 		_, _, _ = newWithChunkMode(vpDocs(a), vpNormCalc, 5000) // unknown chunk mode: fails when a term is encoded
 	}
